@@ -66,9 +66,24 @@ def apply(name, x, axioms=(), concrete=None):
         return concrete(x)
     t = lift(x)
     v = _numval(z3.simplify(t))
-    if v is not None and concrete is not None:
-        return concrete(float(v))
     ex = cur()
+    if v is not None and concrete is not None:
+        # numeral argument: concrete value, registered as an anchor so that the instantiated axioms (monotonicity,
+        # congruence) relate symbolic applications to it
+        cv = concrete(float(v))
+        try:
+            from fractions import Fraction as _F
+            apps = ex.ufapps.setdefault(name, [])
+            key = fr_to_z3(v).sexpr()
+            if not any(k == key for k, _, _ in apps) and math.isfinite(cv):
+                at, vt = fr_to_z3(v), fr_to_z3(_F(cv))
+                for ax in axioms:
+                    if ax in (_mono_inc, _mono_dec, _congr):
+                        ax(ex, at, vt, apps)
+                apps.append((key, at, vt))
+        except Exception:
+            pass
+        return cv
     ct = canon(t)
     key = ct.sexpr()
     apps = ex.ufapps.setdefault(name, [])
@@ -110,10 +125,25 @@ def exp10(x):
     return apply('exp10', x, (pos, _mono_inc), lambda c: 10.0 ** c)
 
 
+def _app_of_value(name_prefix, t):
+    """if term t is (syntactically) the value variable of a recorded application, return (name, arg term)"""
+    tid = z3.simplify(t).get_id()
+    for nm, apps in cur().ufapps.items():
+        if nm.startswith(name_prefix):
+            for k, a2, v2 in apps:
+                if v2.get_id() == tid:
+                    return nm, a2
+    return None
+
+
 def _log_like(name, conc):
     def f(x):
         if isinstance(x, _np.ndarray):
             return _ew(f, x)
+        if isinstance(x, SymFloat) and name == 'log':
+            hit = _app_of_value('exp', canon(x.t)) if cur().ufapps.get('exp') else None
+            if hit is not None and hit[0] == 'exp':
+                return SymFloat(hit[1])          # log(exp(z)) = z
         if isinstance(x, (SymFloat, SymInt)):
             cur().require_defined(lift(x) > 0, f'{name}: argument > 0')
 
@@ -163,6 +193,13 @@ def powc(x, c: float):
         return float(x) ** c
     cur().require_defined(lift(x) > 0, f'pow(x,{c}): base > 0')
     cc = float(_round_fr(Fraction(c)))
+    if isinstance(x, SymFloat) and any(n.startswith('pow[') for n in cur().ufapps):
+        hit = _app_of_value('pow[', canon(x.t))
+        if hit is not None:                      # pow(pow(y, a), b) = pow(y, a*b)   (y > 0)
+            c1 = float(hit[0][4:-1])
+            if abs(c1 * cc - 1.0) <= 1e-9:
+                return SymFloat(hit[1])
+            return powc(SymFloat(hit[1]), c1 * cc)
 
     def ax(ex, a, v, apps):
         ex.assume(z3.Implies(a > 0, v > 0))
